@@ -22,8 +22,10 @@ acc = set(saved_a or []) if len(tiers) == 1 and tiers[0] == 'thorough' else set(
 for t in tiers:
     rc, ev, obs = check.decide(prop, t, write_evidence=False)
     if rc != 0:
-        print('NOT recording %s %s: rc=%d' % (prop, t, rc)); base[prop] = saved_b or {}; 
-        json.dump(base, open(bp, 'w'), indent=1, sort_keys=True); 
+        print('NOT recording %s %s: rc=%d' % (prop, t, rc))
+        base = json.load(open(bp)); allow = json.load(open(ap))   # re-read: other properties may have been recorded meanwhile
+        base[prop] = saved_b or {}
+        json.dump(base, open(bp, 'w'), indent=1, sort_keys=True)
         if saved_a is not None: allow[prop] = saved_a
         json.dump(allow, open(ap, 'w'), indent=1, sort_keys=True); sys.exit(1)
     base[prop][t] = sorted(o['name'] for o in obs)
